@@ -640,6 +640,54 @@ def int_vs_float_stream(ctx, n):
         shutil.rmtree(d, ignore_errors=True)
 
 
+def default_tolerance_stream(ctx, n):
+    """no tolerance option at all: the default is relative = machine epsilon of the data type, absolute = 0.  A float64 entry
+    that is off by ONE unit in the last place passes (|a-b| <= eps*max(|a|,|b|)), one that is off by THREE does not — csv tables
+    (repr round trip) and binary .vtu files, both roles"""
+    import numpy as np
+    rng = ctx.rng
+    for it in range(n):
+        d = os.path.join(str(ctx.workdir), f"dt{it}")
+        os.makedirs(d)
+        k = rng.randint(2, 5)
+        vals = [float(rng.randint(8, 15)) / 8.0 * 2.0 ** rng.randint(-3, 8) * rng.choice([1, -1]) for _ in range(k)]
+        j = rng.randrange(k)
+        ulps = rng.choice([0, 1, 3, 4])
+        other = list(vals)
+        other[j] = float(vals[j] + ulps * np.spacing(abs(vals[j])) * (1 if vals[j] > 0 else -1))
+        form = rng.choice(["csv", "vtu"])
+        if form == "csv":
+            fa, fb = os.path.join(d, "a.csv"), os.path.join(d, "b.csv")
+            write_csv(fa, ["t", "u"], [[0.5 * i for i in range(k)], vals])
+            write_csv(fb, ["t", "u"], [[0.5 * i for i in range(k)], other])
+            extra = ["--read-as", DSV_OPT]
+        else:
+            pts = [[float(i), 0.0, 0.0] for i in range(k)]
+            cells = [(3, [i, i + 1]) for i in range(k - 1)]
+            fa, fb = os.path.join(d, "a.vtu"), os.path.join(d, "b.vtu")
+            V.write_vtu(fa, pts, cells, [("u", "Float64", 1, vals)], [], V.Cfg("binary"))
+            V.write_vtu(fb, pts, cells, [("u", "Float64", 1, other)], [], V.Cfg("binary"))
+            extra = []
+        dev = abs(Fr(other[j]) - Fr(vals[j]))
+        want_zero = dev <= Fr(2) ** -52 * max(abs(Fr(other[j])), abs(Fr(vals[j])))
+        for role in ("ab", "ba"):
+            a, b = (fa, fb) if role == "ab" else (fb, fa)
+            with warnings.catch_warnings():
+                warnings.simplefilter("ignore")
+                rc, log, exc = run_cli(["file", a, b, "--verbosity", "0"] + extra)
+            canon_ = {"default_tolerance": {"format": form, "values": vals, "entry": j, "units_in_the_last_place": ulps, "role": role}}
+            ctx.case(canon_, True, sample={"case": canon_, "exit": rc})
+            ctx.count(f"default tolerances:{form}:{ulps} ulp")
+            ctx.tie("T2 default tolerances through the command line: exit status = statement")
+            if exc:
+                ctx.violation("E4", f"exception escaped the CLI entry point: {exc}", canon_)
+            elif (rc == 0) != want_zero:
+                ctx.violation("E4", f"exit code {rc} with the default tolerances for a float64 entry off by {ulps} units in the last place: the "
+                                    f"statement (relative = machine epsilon, absolute = 0) requires {'0' if want_zero else 'non-zero'}", canon_)
+            ctx.traces_validated += 1
+        shutil.rmtree(d, ignore_errors=True)
+
+
 def mesh_option_matrix(ctx, n_meshes):
     """EVERY combination of the three mesh options (--disable-mesh-reordering, --disable-mesh-orphan-point-removal,
     --disable-mesh-space-dimension-matching) x {same / other space dimension} x {same / other storage order} x {no / one
@@ -718,6 +766,7 @@ def run(ctx):
     globtie.tie(ctx, 600 if ctx.tier == "quick" else 15000, "--include-fields / --exclude-fields")
     mesh_option_matrix(ctx, 2 if ctx.tier == "quick" else 30)
     int_vs_float_stream(ctx, 40 if ctx.tier == "quick" else 1000)
+    default_tolerance_stream(ctx, 40 if ctx.tier == "quick" else 1000)
     n = 1500 if ctx.tier == "quick" else 40000
     scs = gen_scenarios(ctx.rng, n)
     impls = [run_impl(sc, str(ctx.workdir), i, want_junit=False) for i, sc in enumerate(scs)]
